@@ -85,7 +85,7 @@ VARIABLES
   staged,         \* tags with revocationSelfSigned[tag] = true
   newRev,         \* newRevocation
   tombErr, stateErr,
-  nRefresh, nRestart, nWF, nRF,
+  nRefresh, nRestart, nCrash, nWF, nRF,
   \* ---- oracle ----
   seenSince, earned, missSince, revAcc, revVol,
   gT,             \* what the resolver trusted when it fetched
@@ -95,10 +95,11 @@ VARIABLES
 
 implVars  == <<rootKeys, stateFile, tombFile, tombUnreadable, booting, pc, zone, prior, cur,
                tombs, cand, fetched, revOnly, staged, newRev, tombErr, stateErr>>
-bound     == <<nRefresh, nRestart, nWF, nRF>>
+bound     == <<nRefresh, nRestart, nCrash, nWF, nRF>>
 ghost     == <<seenSince, earned, missSince, revAcc, revVol, gT, gFull, gRevSet>>
 vars      == <<now, implVars, bound, ghost, ev>>
-View      == <<implVars, bound, ghost>>
+View      == <<implVars, nRefresh, nRestart, nWF, nRF, ghost>>   \* now, nCrash, ev: history only, no guard reads them
+DirView   == <<View, nCrash>>
 
 None    == -1
 Empty   == << >>
@@ -156,7 +157,7 @@ Init ==
   /\ zone = NoZone /\ prior = FALSE /\ cur = Empty /\ tombs = {} /\ cand = {}
   /\ fetched = Empty /\ revOnly = FALSE /\ staged = {} /\ newRev = FALSE
   /\ tombErr = FALSE /\ stateErr = FALSE
-  /\ nRefresh = 0 /\ nRestart = 0 /\ nWF = 0 /\ nRF = 0
+  /\ nRefresh = 0 /\ nRestart = 0 /\ nCrash = 0 /\ nWF = 0 /\ nRF = 0
   /\ seenSince = [k \in Keys |-> None] /\ earned = {} /\ missSince = [k \in Keys |-> None]
   /\ revAcc = {} /\ revVol = {} /\ gT = {} /\ gFull = FALSE /\ gRevSet = {}
   /\ ev = [a |-> "Init"]
@@ -198,15 +199,17 @@ Begin(d, rf) ==
   /\ Step("ReadState")
   /\ ev' = [a |-> "Begin", d |-> d, rf |-> rf]
   /\ UNCHANGED <<rootKeys, booting, zone, cur, tombs, cand, fetched, revOnly, staged, newRev, tombErr,
-                 stateErr, nRestart, nWF, earned, revAcc, revVol, gT, gFull, gRevSet>>
+                 stateErr, nRestart, nCrash, nWF, earned, revAcc, revVol, gT, gFull, gRevSet>>
 
 Crash ==
   /\ pc \in {"WriteTombstones", "WriteState", "PublishOrClear"}
   /\ nRestart < MaxRestarts
   /\ ClearLocalsTo("down", TRUE)
   /\ rootKeys' = {}
+  /\ nCrash' = nCrash + 1
   /\ ev' = [a |-> "Crash", at |-> pc]
-  /\ UNCHANGED <<now, stateFile, tombFile, bound, seenSince, earned, missSince, revAcc, revVol>>
+  /\ UNCHANGED <<now, stateFile, tombFile, nRefresh, nRestart, nWF, nRF, seenSince, earned, missSince, revAcc,
+                 revVol>>
 
 Restart ==
   /\ pc \in {"idle", "down"} /\ nRestart < MaxRestarts
@@ -215,7 +218,7 @@ Restart ==
   /\ booting' = TRUE /\ pc' = "idle"
   /\ ev' = [a |-> "Restart"]
   /\ UNCHANGED <<now, stateFile, tombFile, tombUnreadable, zone, prior, cur, tombs, cand, fetched,
-                 revOnly, staged, newRev, tombErr, stateErr, nRefresh, nWF, nRF, ghost>>
+                 revOnly, staged, newRev, tombErr, stateErr, nRefresh, nCrash, nWF, nRF, ghost>>
 
 (***************************************************************************)
 (* AutoTA                                                                  *)
@@ -389,13 +392,15 @@ ProcessFetched ==
                  revOnly, staged, tombErr, stateErr, bound, ghost>>
 
 \* KeyRem / KeyPres / AddTime / RemTime.  Presence is `kskFetched[tag] != nil`: by TAG.
+\* The code compares time.Since(FirstSeen) > 720h / 2160h.  Ages here are whole days and the
+\* clock always stands a positive instant past the last whole-day step, so that is age >= 30 / 90.
 HoldOne(t, e) ==
   IF t \notin DOMAIN fetched
     THEN CASE e.st = "AddPend" -> [e EXCEPT !.st = "Deleted"]
            [] e.st = "Valid"   -> [e EXCEPT !.st = "Missing", !.age = 0]
-           [] e.st = "Missing" -> IF e.age > 90 THEN [e EXCEPT !.st = "Deleted"] ELSE e
+           [] e.st = "Missing" -> IF e.age >= 90 THEN [e EXCEPT !.st = "Deleted"] ELSE e
            [] OTHER            -> e
-    ELSE CASE e.st = "AddPend" /\ e.age > 30 -> [e EXCEPT !.st = "Valid", !.age = 0]
+    ELSE CASE e.st = "AddPend" /\ e.age >= 30 -> [e EXCEPT !.st = "Valid", !.age = 0]
            [] e.st = "Missing"               -> [e EXCEPT !.st = "Valid", !.age = 0]
            [] OTHER                          -> e
 
@@ -421,7 +426,7 @@ WriteTombstones(ok) ==
   /\ Step("DropMarkers")
   /\ ev' = [a |-> "WriteTombstones", ok |-> ok]
   /\ UNCHANGED <<now, rootKeys, stateFile, booting, zone, prior, cur, tombs, cand, fetched, revOnly, staged,
-                 newRev, stateErr, nRefresh, nRestart, nRF, seenSince, earned, missSince, revVol, gT,
+                 newRev, stateErr, nRefresh, nRestart, nCrash, nRF, seenSince, earned, missSince, revVol, gT,
                  gFull, gRevSet>>
 
 DropMarkers ==
@@ -447,7 +452,7 @@ WriteState(ok) ==
   /\ Step("PublishOrClear")
   /\ ev' = [a |-> "WriteState", ok |-> ok]
   /\ UNCHANGED <<now, rootKeys, tombFile, tombUnreadable, booting, zone, prior, cur, tombs, cand, fetched,
-                 revOnly, staged, newRev, tombErr, nRefresh, nRestart, nRF, earned, revVol, gT, gFull,
+                 revOnly, staged, newRev, tombErr, nRefresh, nRestart, nCrash, nRF, earned, revVol, gT, gFull,
                  gRevSet>>
 
 PublishOrClear ==
@@ -512,8 +517,8 @@ FailClosed ==
   /\ [][(pc = "ReadTombstones" /\ ~tombUnreadable /\ tombFile.kind = "corrupt")
           => (rootKeys' = {} /\ pc' = "idle")]_vars
 
-\* a trusted key that is present, or merely absent for <= 90 days, stays trusted
-StillOwed(k) == k \notin gRevSet /\ (k \in Plain(zone) \/ missSince[k] = None \/ missSince[k] <= 90)
+\* a trusted key that is present, or merely absent for less than 90 days, stays trusted
+StillOwed(k) == k \notin gRevSet /\ (k \in Plain(zone) \/ missSince[k] = None \/ missSince[k] < 90)
 MissingKeepsTrust ==
   [][(Publishing /\ gFull)
        => \A k \in gT : StillOwed(k) => (k \in rootKeys' \/ (tombErr /\ stateErr /\ rootKeys' = {}))]_vars
